@@ -250,6 +250,7 @@ impl<'g> Cx<'g> {
                     None => return self.bail(span, format!("constant `{}` is ambiguous", n)),
                 };
                 let name = if c.ns == self.ns { lean_ident(&c.name) } else { format!("{}.{}", c.ns, lean_ident(&c.name)) };
+                self.g.note(&c.group);
                 return Ok((name, c.ty.clone()));
             }
             return self.bail(span, format!("unknown identifier `{}` (not a local, a selected constant or an enum variant)", n));
@@ -279,6 +280,7 @@ impl<'g> Cx<'g> {
             if cs.len() == 1 {
                 let c = &cs[0];
                 let name = if c.ns == self.ns { lean_ident(&c.name) } else { format!("{}.{}", c.ns, lean_ident(&c.name)) };
+                self.g.note(&c.group);
                 return Ok((name, c.ty.clone()));
             }
         }
@@ -740,10 +742,16 @@ impl<'g> Cx<'g> {
         let v = match self.g.fns.get(&key) {
             Some(v) => v,
             None => {
-                return self.bail(
-                    span,
-                    format!("call of `{}{}` which is neither a RustSem primitive nor a selected fn", st.map(|s| format!("{}::", s)).unwrap_or_default(), name),
-                )
+                return Err(crate::TErr {
+                    file: self.file.clone(),
+                    line: span.start().line,
+                    msg: format!(
+                        "call of `{}{}` which is neither a RustSem primitive nor a translatable fn of this crate",
+                        st.map(|s| format!("{}::", s)).unwrap_or_default(),
+                        name
+                    ),
+                    missing: Some(crate::Missing { self_ty: st.map(|s| s.to_string()), name: name.to_string() }),
+                })
             }
         };
         let f = match v.iter().find(|f| f.ns == self.ns) {
@@ -1186,6 +1194,50 @@ impl<'g> Cx<'g> {
                     _ => self.bail(whole.span(), "`.into()` is only supported between `Vec<u8>` and `Bytes` with a known target type"),
                 }
             }
+            (Ty::Opt(t), "is_some_and", 1) | (Ty::Opt(t), "map_or", 2) => {
+                // `o.is_some_and(|x| e)` / `o.map_or(d, |x| e)` with a simple closure
+                let (dflt, dty, clos) = if name == "map_or" {
+                    let (d, dt) = self.expr(args[0], exp, stmts)?; // the default is evaluated eagerly
+                    (d, Some(dt), args[1])
+                } else {
+                    ("false".to_string(), Some(Ty::Bool), args[0])
+                };
+                let (x, body) = match clos {
+                    syn::Expr::Closure(c) if c.inputs.len() == 1 && c.capture.is_none() => match &c.inputs[0] {
+                        syn::Pat::Ident(pi) if pi.subpat.is_none() => (pi.ident.to_string(), &*c.body),
+                        syn::Pat::Reference(pr) => match &*pr.pat {
+                            syn::Pat::Ident(pi) if pi.subpat.is_none() => (pi.ident.to_string(), &*c.body),
+                            o => return self.bail(o.span(), "unsupported closure parameter"),
+                        },
+                        o => return self.bail(o.span(), "unsupported closure parameter"),
+                    },
+                    o => return self.bail(o.span(), "only simple closures `|x| expr` are supported here"),
+                };
+                self.check_local_name(&x, clos.span())?;
+                if !self.assigned_in_expr(body).is_empty() {
+                    return self.bail(clos.span(), "closure must not assign outer variables");
+                }
+                self.push_scope(vec![(x.clone(), (**t).clone())]);
+                let mut bs: Vec<Stmt> = Vec::new();
+                let rb = self.expr(body, dty.as_ref(), &mut bs);
+                self.pop_scope();
+                let (b, bt) = rb?;
+                let v = self.fresh();
+                let d = Doc::Match(
+                    r,
+                    vec![
+                        (format!("some {}", lean_ident(&x)), Doc::seq(bs, Doc::atom(format!("pure {}", b)))),
+                        ("none".to_string(), Doc::atom(format!("pure {}", dflt))),
+                    ],
+                );
+                stmts.push(Stmt::Bind(v.clone(), d));
+                Ok((v, bt))
+            }
+            (Ty::Opt(t), "unwrap_or", 1) => {
+                let (d, _) = self.expr(args[0], Some(t), stmts)?;
+                Ok((format!("(Option.getD {} {})", r, d), (**t).clone()))
+            }
+            (Ty::Int(w), "leading_zeros" | "trailing_zeros", 0) => Ok((format!("(RustSem.{} {} {})", name, w, r), Ty::Int(32))),
             (Ty::Opt(_), "is_some", 0) => Ok((format!("(Option.isSome {})", r), Ty::Bool)),
             (Ty::Opt(_), "is_none", 0) => Ok((format!("(Option.isNone {})", r), Ty::Bool)),
             (Ty::Opt(t), "unwrap", 0) => {
